@@ -23,6 +23,7 @@ import (
 	"path/filepath"
 	"runtime"
 	"sort"
+	"strconv"
 	"strings"
 	"sync"
 	"sync/atomic"
@@ -164,9 +165,10 @@ type lworld struct {
 	q    qa.Queue
 	kind string
 	x    *qx.Exec
-	busy [nCons + 1]bool // consumer has an outstanding Pop
-	m    qa.Model        // the harness's own count model of the property (drain length only)
-	mp   int             // consumers parked according to that model
+	busy [nCons + 1]bool        // consumer has an outstanding Pop
+	gid  [nCons + nCall + 1]int // goroutine ids of the workers (written by the call itself)
+	m    qa.Model               // the harness's own count model of the property (drain length only)
+	mp   int                    // consumers parked according to that model
 	dead bool
 	pend *pending
 	// the steps still to come: the plan, then the drain
@@ -228,7 +230,11 @@ func (wd *lworld) issue(a act) bool {
 		}
 		wd.busy[a.C] = true
 		inner := a.Act
-		wd.x.Issue(a.C, func() interface{} { return qa.Safe(q, inner) })
+		gid := &wd.gid[a.C]
+		wd.x.Issue(a.C, func() interface{} {
+			*gid = goid()
+			return qa.Safe(q, inner)
+		})
 	default:
 		if !qa.Supports(wd.kind, a.Act) {
 			return false
@@ -282,7 +288,9 @@ func (wd *lworld) issueRace(a act) bool {
 		if x.Op == "pop" {
 			wd.busy[worker[i]] = true
 		}
+		gid := &wd.gid[worker[i]]
 		wd.x.Issue(worker[i], func() interface{} {
+			*gid = goid()
 			b.wait(d)
 			return qa.Safe(q, x)
 		})
@@ -350,7 +358,7 @@ func (wd *lworld) collect() {
 				// primitive the queue waits on (the wait reason is logged, not compared).  "Parked" is
 				// only logged for a goroutine that the runtime reports blocked right now; anything
 				// else means the picture is not final yet: wait for quiescence again.
-				why := wd.x.WaitState(c)
+				why := lastSnap[wd.gid[c]] // one snapshot per quiescence, shared by all worlds
 				if blockedState[why] {
 					st[c-1] = tr.E{"s": "parked", "r": none(), "why": why}
 					break
@@ -525,10 +533,22 @@ func newWorld(src, kind string, ccap, rcap, rep int, plan []act, emit func(tr.E)
 	return wd
 }
 
+// settle waits for global quiescence and keeps the goroutine states seen right after it.
 func settle() {
 	if err := settler.Settle(); err != nil {
 		tr.Fatal("%v", err)
 	}
+	lastSnap = qx.Goroutines()
+}
+
+var lastSnap map[int]string
+
+func goid() int {
+	var buf [64]byte
+	n := runtime.Stack(buf[:], false)
+	f := strings.Fields(string(buf[:n]))
+	id, _ := strconv.Atoi(f[1])
+	return id
 }
 
 var settler = qx.New(0)
@@ -1250,7 +1270,11 @@ func raceParked(rng *rand.Rand, kind string, take bool) (plan []act) {
 	for c := 1; c <= k; c++ {
 		plan = append(plan, act{Act: pop(), C: c})
 	}
-	for round := 0; round < 2; round++ { // a second race on the same queue while it is still open
+	nr := 1
+	if take {
+		nr = 2 // a second race on the same queue while it is still open
+	}
+	for round := 0; round < nr; round++ {
 		r := act{Act: qa.Act{Op: "race"}}
 		m := 1 + rng.Intn(3)
 		if take {
